@@ -148,7 +148,15 @@ class Operator:
         self.memories = inventory.ResourceMemories()
         self.indexers = indexing.OperatorIndexers()
         self.stop_flag = asyncio.Event()
-        self.ready_flag = asyncio.Event()
+        actor_ = self.actor
+
+        class _ReadyFlag(asyncio.Event):
+            def set(self) -> None:
+                if not self.is_set():
+                    sim.log('op-ready', actor_)
+                super().set()
+
+        self.ready_flag = _ReadyFlag()
         register_handlers(self, spec.get('handlers', []))
 
         lifecycle = {
@@ -450,6 +458,10 @@ def register_handlers(op: Operator, specs: list[dict[str, Any]]) -> None:
             run.sim.log('login', op.actor, op.sessions[-1].token + '(again)')
             run.logins.append((run.sim.now, op.actor, op.sessions[-1].token))
             return op.last_credentials
+        fails_from = op.spec.get('login_fails_from')
+        if fails_from is not None and op.logins >= fails_from:
+            run.sim.log('login-failed', op.actor)
+            raise kopf.PermanentError('sim: no credentials can be obtained')
         session = op.new_session()
         run.sim.log('login', op.actor, session.token)
         run.logins.append((run.sim.now, op.actor, session.token))
